@@ -3,6 +3,8 @@ from . import run_harness
 
 def run(tier, seed):
     out = run_harness('h_repo.py', 'C20', tier, seed)
-    out['explanation'] = 'Bounded stand-in (not a proof): run-time contract on whole gemato runs over generated repositories / histories. '
+    out['explanation'] = ('Bounded stand-in (not a proof): the two fast generator scripts are run on generated repositories '
+                          '(and on four variants with one unusual but portable name each), then gemato verify, an independent '
+                          'coverage oracle, gemato update -p ebuild on the untouched tree and after edits. ')
     out['required'] = True
     return out
